@@ -229,3 +229,11 @@ package types
 // assumed to leave the journal, the change logs themselves and the accounts' version counters alone
 //@ func (*ChangeLog).Undo   trusted
 //@   modifies allbut(account.LogProcessor, []*ChangeLog, ChangeLog, []account.revision, account.Account.newestRecords, map[ChangeLogType]uint32, map[common.Address]map[ChangeLogType]uint32)
+
+// the processor hands out one accessor per address (assumed, like account.Manager.GetAccount)
+//@ func (ChangeLogProcessor).GetAccount   pure trusted
+//@   opt heap-independent
+//@   ensures result != nil
+// the provisional version counter (C07): behind the interface it is ghost state of its own
+//@ func (AccountAccessor).GetNextVersion   trusted
+//@   modifies gh("nextVersion", recv)
